@@ -111,6 +111,29 @@ impl C09 {
             durs.push((format!("{} s", s), sec(s)));
             durs.push((format!("-{} s", s), -sec(s)));
         }
+        // just below / at / just above whole multiples of every breakdown unit, including units whose
+        // value in seconds is not an integer (year = 31556925.9747 s): a quotient taken on truncated
+        // operands is off by one exactly there
+        for name in ["year", "week", "day", "hour", "minute"] {
+            let uv = dump.units.get(name).and_then(|u| u.value.clone()).unwrap();
+            let f = &uv - uv.floor();
+            for k in [1i64, 2, 10, 1000] {
+                let mut ds = vec![rat(0, 1), pow_rat(&rat(10, 1), -9).unwrap(), rat(1, 2)];
+                if !f.is_zero() {
+                    ds.push(&f / rat(2, 1));
+                    ds.push(f.clone());
+                }
+                for dl in ds {
+                    for sg in [-1i64, 1] {
+                        let v = rat(k, 1) * &uv + rat(sg, 1) * &dl;
+                        durs.push((format!("{} s", rat_text(&v)), v.clone()));
+                        if dl.is_zero() {
+                            break;
+                        }
+                    }
+                }
+            }
+        }
         durs.push(("1|3 s".into(), rat(1, 3)));
         durs.push(("3 hour".into(), rat(10800, 1)));
         durs.push(("1.5 day + 1 ms".into(), rat(129600, 1) + rat(1, 1000)));
@@ -127,6 +150,8 @@ impl C09 {
             fams.add(&format!("lists of {} (time/length/mass/volume)", l), dims);
         }
         fams.add("non-conformable member or value", vec![g, g, 4]);
+        fams.add("near multiples: (k +- e) a -> a;b", vec![g, 6, 6, NEAR_K.len() as u64, 5]);
+        fams.add("near multiples in the second stage: 1 a + (k +- e) b -> a;b;c", vec![big.len() as u64, 6, 6, 6, NEAR_K.len() as u64, 5]);
         fams.add("automatic duration breakdown", vec![durs.len() as u64]);
         C09 { fams, groups, big, vals, durs, time_units, long_lens, ctx: Lazy::new() }
     }
@@ -169,8 +194,52 @@ impl C09 {
             };
             return Some((q, None, false));
         }
+        if f == 3 + nlong || f == 4 + nlong {
+            let three = f == 4 + nlong;
+            let g = if three { &self.groups[self.big[d[0] as usize]] } else { &self.groups[d[0] as usize] };
+            let np = if three { 3 } else { 2 };
+            let mut us = vec![];
+            for p in &d[1..1 + np] {
+                us.push(g.units.get(*p as usize)?.clone());
+            }
+            let k = rat(NEAR_K[d[1 + np] as usize], 1);
+            // the unit whose multiple is approached: the first (lists of 2) or the second (lists of 3)
+            let a = if three { &us[1] } else { &us[0] };
+            let fr = &a.value - a.value.floor();
+            let e1 = if fr.is_zero() { rat(1, 1000) } else { &fr / (rat(2, 1) * &a.value) };
+            let e2 = pow_rat(&rat(10, 1), -12).unwrap();
+            let m = match d[2 + np] {
+                0 => k.clone(),
+                1 => &k - &e1,
+                2 => &k + &e1,
+                3 => &k - &e2,
+                _ => &k + &e2,
+            };
+            let list = us.iter().map(|u| regdump::q(&u.name)).collect::<Vec<_>>().join(";");
+            let (q, total) = if three {
+                (
+                    format!("1 {} + {} {} -> {}", regdump::q(&us[0].name), rat_text(&m), regdump::q(&a.name), list),
+                    &us[0].value + &m * &a.value,
+                )
+            } else {
+                (format!("{} {} -> {}", rat_text(&m), regdump::q(&a.name), list), &m * &a.value)
+            };
+            return Some((q, Some((total, us)), false));
+        }
         let (t, v) = &self.durs[d[0] as usize];
         Some((t.clone(), Some((v.clone(), self.time_units.clone())), true))
+    }
+}
+
+const NEAR_K: [i64; 3] = [1, 3, 1000];
+
+fn rat_text(r: &Rat) -> String {
+    let a = r.abs();
+    let t = if a.is_integer() { format!("{}", a.numer()) } else { format!("({}|{})", a.numer(), a.denom()) };
+    if r.is_negative() {
+        format!("(-{})", t)
+    } else {
+        t
     }
 }
 
@@ -217,7 +286,7 @@ impl Space for C09 {
         Meta {
             id: "C09",
             level: "exploration",
-            rule: "for every dimensionality with >= 2 positive exact units, up to 6 units (largest, smallest, median, second smallest, a kilo-prefixed and a plural spelling): all ordered lists of length 2 and 3 with repetition x 11-13 rational values (0, +-1, +-1/3, +-7.5, +-1e-9, +-123456789.123, +-1e40); lists of length 4 (thorough 4-6) for time/length/mass/volume; every position of a non-conformable member and a non-conformable value; 67 time values for the automatic year/week/day/hour/minute/second breakdown. Oracle: the statement's four clauses on raw part values with unit values from the registry dump. Non-trivial = a law was judged; distinct by query text".into(),
+            rule: "for every dimensionality with >= 2 positive exact units, up to 6 units (largest, smallest, median, second smallest, a kilo-prefixed and a plural spelling): all ordered lists of length 2 and 3 with repetition x 11-13 rational values (0, +-1, +-1/3, +-7.5, +-1e-9, +-123456789.123, +-1e40); lists of length 4 (thorough 4-6) for time/length/mass/volume; every position of a non-conformable member and a non-conformable value; time values for the automatic year/week/day/hour/minute/second breakdown (67 fixed ones plus k x unit +- {0, 1e-9, 1/2, frac/2, frac} s for k in {1,2,10,1000} and every breakdown unit); near-multiple values (k +- e) a -> a;b for every group and ordered pair, k in {1,3,1000}, e in {half the fractional part of a's base-unit value, 1e-12}, and the same in the second stage of 3-unit lists (a quotient computed on truncated operands is off by one exactly there). Oracle: the statement's four clauses on raw part values with unit values from the registry dump. Non-trivial = a law was judged; distinct by query text".into(),
             assumptions: vec![
                 "negative-valued units (delisle_absolute, wire gauges g00..) are excluded: the sign clause is ill-posed for them".into(),
                 "any error kind counts as a refusal".into(),
